@@ -153,6 +153,25 @@ func main() {
 				blocks[i] = append(blocks[i], w)
 			}
 		}
+		// crash-and-recommit episode: after the commit of block ep (version ep+1) the store is reopened at version ep
+		// (what the multistore does after a crash between the substore commits and the commit-info write of ep+1), block
+		// ep is re-applied identically (SaveVersion's idempotent branch) and the history goes on; the next block sets
+		// again every key block ep set, so its paths cross the nodes re-created by the re-execution
+		ep := -1
+		if nb >= 3 {
+			ep = nb - 2
+			if nb >= 4 && r.Bool() {
+				ep = nb - 3
+			}
+			if len(blocks[ep]) == 0 {
+				blocks[ep] = append(blocks[ep], write{store: ps[0], k: msdrive.Key(r, space), v: []byte{0x11}})
+			}
+			for _, w := range blocks[ep] {
+				if !w.del {
+					blocks[ep+1] = append(blocks[ep+1], write{store: w.store, k: w.k, v: []byte{0x5a, byte(ep)}})
+				}
+			}
+		}
 		spec := msdrive.Spec{Persistent: ps}
 		// a software upgrade: after the commit of block mountAt the store object is replaced by a new one that mounts
 		// an additional (so far non-existent) IAVL substore, whose own versions then lag behind the multistore's
@@ -216,6 +235,28 @@ func main() {
 				snaps = append(snaps, o.clone())
 				t.Line("commit", true, "commit %d => %s %s", bi, msdrive.CID(id), renderEvents(evs))
 				storeStates(t, "state", fmt.Sprint(id.Version), ms, o)
+				if bi == ep {
+					if *backend == "goleveldb" {
+						inner.Close()
+						inner = openInner()
+						db = faultdb.Wrap(inner)
+					}
+					msr, err := msdrive.OpenAt(db, spec, int64(1+r.Intn(30)), int64(bi))
+					reopens++
+					if err != nil {
+						t.Line("reopenat", true, "reopenat %d => ERR %s", bi, errStr(err))
+						panic("reopen at latest-1 failed")
+					}
+					t.Line("reopenat", true, "reopenat %d => %s", bi, msdrive.CID(msr.Store.LastCommitID()))
+					storeStates(t, "rstate", fmt.Sprint(bi), msr, nil)
+					applyRoute(msr, b, (bi+len(b))%3)
+					db.Start()
+					id2 := msr.Store.Commit()
+					evs2 := db.Stop()
+					t.Line("commit", true, "commit %d => %s %s", bi, msdrive.CID(id2), renderEvents(evs2))
+					storeStates(t, "state", fmt.Sprint(id2.Version), msr, o)
+					ms = msr
+				}
 				if bi == mountAt {
 					spec = msdrive.Spec{Persistent: append(append([]string{}, ps...), upg)}
 					o[upg] = map[string][]byte{}
